@@ -73,6 +73,8 @@ fn run_action(db: &Db, a: &A, tid: usize, seq: u64) {
         }
         A::CypherRead => {
             let _ = cy::read(db, "MATCH (a)-[r]->(b) RETURN id(a) AS a, type(r) AS t, b.p AS p LIMIT 50", &nervusdb::query::Params::new());
+            let p = cy::params_from(&[("n".into(), PV::Int((seq % POOL as u64) as i64))], None);
+            let _ = cy::read(db, "MATCH (x:Pool {slot: $n}) RETURN x.q AS q", &p);
         }
         A::CypherWrite { n, v } => {
             let p = cy::params_from(&[("n".into(), PV::Int(*n as i64 % POOL as i64)), ("v".into(), PV::Int(*v as i64))], None);
@@ -138,6 +140,7 @@ fn run_action(db: &Db, a: &A, tid: usize, seq: u64) {
         A::IndexLookup { l, k } => {
             let s = db.snapshot();
             let _ = s.lookup_index(LABELS[*l as usize % 3], KEYS[*k as usize % 3], &nervusdb::PropertyValue::Int(seq as i64 % 5));
+            let _ = s.lookup_index("Pool", ["slot", "p", "q"][*k as usize % 3], &nervusdb::PropertyValue::Int(seq as i64 % POOL as i64));
         }
     }));
 }
@@ -153,6 +156,15 @@ fn test(w: &Workload, obs: &mut Obs, stall: Duration) -> CaseResult {
             let _ = tx.set_node_property(id, "slot".into(), nervusdb::PropertyValue::Int(i as i64));
         }
         tx.commit().map_err(|e| Failure::new("harness-setup", e.to_string()))?;
+    }
+    // half of the workloads start with indexes on the pool's properties, so that every
+    // commit maintains an index (catalog + pager) while readers seek through it
+    let indexed = w.threads.iter().map(|t| t.len()).sum::<usize>() % 2 == 0;
+    if indexed {
+        for k in ["slot", "p", "q"] {
+            let _ = db.create_index("Pool", k);
+        }
+        obs.class("indexed-pool");
     }
     let n = w.threads.len();
     let progress: Arc<Vec<AtomicU64>> = Arc::new((0..n).map(|_| AtomicU64::new(0)).collect());
@@ -239,7 +251,7 @@ pub fn run(ctx: &mut RunCtx) {
                 1 => (any::<u8>(), any::<u8>()).prop_map(|(l, k)| A::CreateIndex { l, k }),
                 2 => any::<u8>().prop_map(|n| A::VectorInsert { n }),
                 2 => any::<u8>().prop_map(|k| A::VectorSearch { k }),
-                1 => (any::<u8>(), any::<u8>()).prop_map(|(l, k)| A::IndexLookup { l, k }),
+                3 => (any::<u8>(), any::<u8>()).prop_map(|(l, k)| A::IndexLookup { l, k }),
             ];
             (prop::collection::vec(prop::collection::vec(a, 1..10), 2..9), 1u8..6).prop_map(|(threads, rounds)| Workload { threads, rounds })
         },
